@@ -208,6 +208,10 @@ def spec_builtin(I, st, name, args, kwargs, node):
         for d in args[1:]:
             tot = tot - spec_builtin(I, st, "at", [d, kv], {}, node).term
         return Val(base, (z3.K(sort_of(base[1]), TRUE), st.deflam([k], tot)))
+    if name == "nonempty":
+        m = args[0]
+        d = I.dom_of(st, m)
+        return mkbool(d != z3.K(d.sort().domain(), FALSE))
     if name == "mkval":
         nm = node.args[0].value
         dt, fields = REG.vals[nm]
